@@ -75,7 +75,13 @@ def fragment():
         for call in ("in_", "not_in"):
             for tys in ([int], [int, str], [dict, list, bool], list(TYPES7), []):
                 out.append(L(cls, call, tys))
+    for cls in ("ValueDataType", "KeyDataType"):
+        for call in ("in_", "not_in"):
+            out.append(L(cls, call, [int, str, int]))
+            out.append(L(cls, call, [dict, dict]))
     for call in ("is_instance", "keys_is_instance"):
+        out.append(L("Value", call, list, dict, list))
+        out.append(L("Value", call, str, str))
         for tys in ((), (int,), (int, str), (dict, list, bool, float)):
             out.append(L("Value", call, *tys))
     # data-path arguments in every argument position
